@@ -1,7 +1,7 @@
 """Ledger family pipeline: C01 C02 C03 C04 C09(ledger part)."""
 import collections
 import json
-import os
+import os, time
 import shutil
 
 import vlib
@@ -89,7 +89,8 @@ def _run(tier, seed, harness, d):
     dm = os.path.join(d, "mc")
     os.makedirs(dm)
     vlib.stage_specs(dm, with_override=False)
-    mcs = [("MC_Ledger_q.tla", "MC_Ledger_q.cfg")] if tier == "quick" else [("MC_Ledger_q.tla", "MC_Ledger_q.cfg"), ("MC_Ledger_t.tla", "MC_Ledger_t.cfg")]
+    mcs = [("MC_Ledger_q.tla", "MC_Ledger_q.cfg")] if tier == "quick" else \
+        [("MC_Ledger_q.tla", "MC_Ledger_q.cfg"), ("MC_Ledger_q.tla", "MC_Ledger_q7.cfg"), ("MC_Ledger_t.tla", "MC_Ledger_t.cfg")]
     for module, cfg in mcs:
         if not os.path.exists(os.path.join(dm, cfg)):
             continue
@@ -135,7 +136,10 @@ def _run(tier, seed, harness, d):
         dl = os.path.join(d, "lead-" + cfg)
         os.makedirs(dl)
         vlib.stage_specs(dl, with_override=False)
+        t0 = time.time()
         r, st = vlib.tlc_lead(dl, module, cfg)
+        if st is not None:
+            st["wall_s"] = round(time.time() - t0, 1)
         return cfg, hcfg, r, st
 
     def goal(item):
@@ -143,8 +147,13 @@ def _run(tier, seed, harness, d):
         dl = os.path.join(d, "goal-" + cfg)
         os.makedirs(dl)
         vlib.stage_specs(dl, with_override=False)
-        out, rc = vlib.tlc(dl, module, cfg, workers=4, timeout=1500)
+        t0 = time.time()
+        # thorough: one worker = strict breadth-first order, deterministic shortest behaviours; quick: four workers
+        # (the goal search is a generator, not a verdict: a goal it misses is reported under goals_not_covered)
+        out, rc = vlib.tlc(dl, module, cfg, workers=4 if tier == "quick" else 1, timeout=3000)
         st = vlib.tlc_stats(out)
+        if st is not None:
+            st["wall_s"] = round(time.time() - t0, 1)
         if st is None or "Error:" in out:
             raise vlib.Infra(f"goal run {cfg} failed:\n" + out[-3000:])
         found = {}
@@ -164,7 +173,7 @@ def _run(tier, seed, harness, d):
         jobs = []
         res["leads"] = []
         for cfg, hcfg, r, st in leads:
-            res["leads"].append({"cfg": cfg, "invariant": r[0] if r else None, "behaviour": r[1] if r else None, "states": st["distinct"] if st else None})
+            res["leads"].append({"cfg": cfg, "invariant": r[0] if r else None, "behaviour": r[1] if r else None, "states": st["distinct"] if st else None, "wall_s": st.get("wall_s") if st else None})
             if r:
                 wname = "lead:" + cfg
                 worlds[wname] = dict(hcfg=hcfg)
@@ -176,7 +185,7 @@ def _run(tier, seed, harness, d):
             # starts from empty pools): replay every goal behaviour also with o1 and o2 exchanged, so that the
             # goal's pool states are reached on the operator that starts empty
             behs = sorted(set(behs) | {b.replace('"o1"', '"o#"').replace('"o2"', '"o1"').replace('"o#"', '"o2"') for b in behs})
-            res["goal_runs"].append({"cfg": cfg, "goals_reached": sorted(found), "behaviours": len(behs), "states": st["distinct"], "worlds": len(hcfgs)})
+            res["goal_runs"].append({"cfg": cfg, "goals_reached": sorted(found), "behaviours": len(behs), "states": st["distinct"], "wall_s": st.get("wall_s"), "worlds": len(hcfgs)})
             for wi, hcfg in enumerate(hcfgs):
                 wname = f"goal:{cfg}:{wi}"
                 worlds[wname] = dict(hcfg=hcfg)
